@@ -130,6 +130,7 @@ type Recorded struct {
 	TE         []string
 	ContentLen int64
 	At         time.Duration // fake time since backend start
+	BodyErr    string        // non-empty: the request body could not be read to its end (the request is not a complete one)
 }
 
 type Backend struct {
@@ -142,6 +143,9 @@ type Backend struct {
 
 	// Respond, when set, produces the response (after the request body was read and recorded).
 	Respond func(w http.ResponseWriter, r *http.Request, rec *Recorded)
+	// DialHooks, when set, supplies fault hooks for the backend's side of the k-th connection (1-based) the proxy opens.
+	DialHooks func(k int) *Hooks
+	dials     int
 }
 
 func NewBackend() *Backend {
@@ -152,9 +156,12 @@ func NewBackend() *Backend {
 }
 
 func (b *Backend) serve(w http.ResponseWriter, r *http.Request) {
-	body, _ := io.ReadAll(r.Body)
+	body, berr := io.ReadAll(r.Body)
 	rec := &Recorded{Method: r.Method, RequestURI: r.RequestURI, Host: r.Host, Proto: r.Proto, Header: r.Header.Clone(), Body: body,
 		Trailer: r.Trailer.Clone(), RemoteAddr: r.RemoteAddr, TE: append([]string{}, r.TransferEncoding...), ContentLen: r.ContentLength, At: time.Since(b.start)}
+	if berr != nil {
+		rec.BodyErr = berr.Error()
+	}
 	b.mu.Lock()
 	rec.Seq = len(b.Reqs)
 	b.Reqs = append(b.Reqs, rec)
@@ -184,7 +191,15 @@ func (b *Backend) Requests() []*Recorded {
 func (b *Backend) Count() int { b.mu.Lock(); defer b.mu.Unlock(); return len(b.Reqs) }
 
 func (b *Backend) Dial(ctx context.Context, network, addr string) (net.Conn, error) {
-	c, _, err := b.Ln.Dial(DialOpts{Remote: &net.TCPAddr{IP: net.IPv4(10, 0, 0, 1), Port: 50000}})
+	b.mu.Lock()
+	b.dials++
+	k, dh := b.dials, b.DialHooks
+	b.mu.Unlock()
+	var hooks *Hooks
+	if dh != nil {
+		hooks = dh(k)
+	}
+	c, _, err := b.Ln.Dial(DialOpts{Remote: &net.TCPAddr{IP: net.IPv4(10, 0, 0, 1), Port: 50000}, ServerHooks: hooks})
 	if err != nil {
 		return nil, err
 	}
